@@ -69,7 +69,7 @@ def impl(case) -> str:
 
         def _hook(self, script):
             if self.depth >= 6:
-                events.append("DEEP")
+                events.append("!deep")
                 return
             self.depth += 1
             try:
@@ -501,6 +501,10 @@ def histogram(case, obs):
         f.append("adjust")
     if "z" in head:
         f.append("closed-both")
+    if case.get("start_hook") and "+" in head:
+        f.append("start-hook")
+    if case.get("stop_hook") and "-" in head:
+        f.append("stop-hook")
     return "+".join(f) or "quiet"
 
 
@@ -517,6 +521,8 @@ SPEC = Spec(
          "CLOSE, application adjustWindow(3)} for 4 (thorough 36) tiny window/packet configurations; random histories of 2-13 (thorough 2-29) ops in four "
          "op mixes with remote window 0-200, max packets 1-64, local window 1-100, half ending with a draining "
          "WINDOW_ADJUST; 32-bit window sizes; non-trivial = at least one data/ext/close/adjust packet sent; "
+         "35% of the random and 40% of the exhaustive histories with a WINDOW_ADJUST run on a channel whose startWriting() "
+         "hook writes 1-3 chunks of normal/extended data synchronously, 10% on one whose stopWriting() hook does (oracle only); "
          "distinct by (case, observation)",
     trusted=["hand-written model coq/C36/Model.v (tied by this correspondence run only)",
              "fake transport records sendPacket; the harness plays the peer by calling SSHConnection.packetReceived with "
